@@ -32,6 +32,9 @@ REQUIRED_THEOREMS = [
     "C08_mixed_rbm_trace_real", "C08_one_value_per_sample",
     "C08_flag_absolute", "C08_flag_periodic", "C08_flag_any_form",   # round 4: constructor flags as the objects the caller passed
     "C08_pure_rbm", "C08_pure_rbm_pos",   # second audit C08-A1: hypothesis-free instances for the RBM wavefunctions
+    # extension round X3: composition with the sampler (C05) and the streaming statistics (C13)
+    "C08_born_stationary", "C08_unbiased_stationary", "C08_unbiased_stationary_pos", "C08_unbiased_stationary_mixed",
+    "C08_statistics_mean_generic", "C08_unbiased_statistics", "C08_unbiased_statistics_mixed",
 ]
 THEOREMS = {
     "sigmaX": "C08_sigmaX (+ C08_represents_pure/_mixed, C08_no_mutation: run = map of the per-sample value)",
@@ -44,6 +47,8 @@ THEOREMS = {
     "weight": "C08_importance_weight",
     "rotated": "C08_rotated_Z (+ C08_rotated_Z_pure / C08_rotated_Z_mixed, C08_basis_rotation_sign, C08_pauli_triple; C04_dX_eigen / C04_dY_eigen)",
     "shape": "C08_one_value_per_sample",
+    "stationary": "C08_unbiased_stationary / C08_unbiased_stationary_pos / C08_unbiased_stationary_mixed (C05_invariant_k composed with "
+                  "C08_pure_rbm / C08_mixed_rbm through Prog.expect_stationary; C08_born_stationary)",
 }
 # the sign relating SigmaZ on outcomes drawn in the all-P basis (library convention, C04: outcome 0 <-> eigenvalue +1) to SigmaP on
 # computational-basis samples (observables' convention to_pm1: bit 0 -> -1): C08_rotated_Z
@@ -490,6 +495,45 @@ def one_case(ctx, kind, n, h, a, scale, am, ph, samples, full, layout="contig", 
             for per, mk in ((False, "open"), (True, "periodic")):
                 check(f"NeighbourInteraction(periodic={per},c={c})", impl[("nb", per, c)][0], op_neighbour(n, c, per),
                       f"{kind}/neighbour/{mk}/unbiased", THEOREMS[mk])
+
+        # ---------------- composition with the sampler (extension round X3): a chain started from the exact distribution p and advanced by k
+        # passes of the block-Gibbs kernel P assembled from the implementation's PUBLIC conditionals (exactly as harness/c05.py does) has
+        # expected estimator value  sum_v0 p(v0) sum_v P^k(v0, v) apply(v) == tr(rho_hat O)  for every k (exact, no sampling).
+        if n <= 3 and 2 ** (h + a) <= 128:
+            from . import c05 as _c05
+
+            try:
+                P1, kerr = np.asarray(_c05.public_kernel(st, kind, n, h, a), dtype=np.float64), None
+            except Exception as e:  # noqa: BLE001
+                P1, kerr = None, type(e).__name__
+            obs_list = [("SigmaX", ("sigmaX", False), op_magnet(PX, n)), ("SigmaY", ("sigmaY", False), op_magnet(PY, n)),
+                        ("SigmaZ", ("sigmaZ", False), op_magnet(PZ, n))]
+            for c in cs:
+                if 1 <= c <= n:
+                    for per in (False, True):
+                        obs_list.append((f"NeighbourInteraction(periodic={per},c={c})", ("nb", per, c), op_neighbour(n, c, per)))
+            for k in (1, 3):
+                sub = {**case, "gibbs_passes": k}
+                if P1 is None or P1.shape != (len(samples), len(samples)) or not np.all(np.isfinite(P1)):
+                    ctx.oracle("one-pass kernel from the public conditionals is a finite 2^n x 2^n matrix", False, sub, detail={"error": kerr},
+                               sig=f"{kind}/stationary-chain/unbiased", theorem=THEOREMS["stationary"])
+                    break
+                pk = p @ np.linalg.matrix_power(P1, k)
+                worst, wname = 0.0, None
+                for name, key, O in obs_list:
+                    vals = impl[key][0]
+                    if isinstance(vals, dict):
+                        continue
+                    vals = np.asarray(vals, dtype=np.float64)
+                    dev = abs(float(pk @ vals) - float(np.trace(R @ O).real)) / (1.0 + float(np.max(np.abs(vals))))
+                    if dev > worst:
+                        worst, wname = dev, name
+                ctx.count("stationary_chain_oracle")
+                ctx.oracle(f"stationary start, {k} Gibbs pass(es) of the public conditionals: sum_v0 p(v0) sum_v P^{k}(v0,v) apply(v) == tr(rho_hat O), "
+                           "all built-in observables", bool(worst <= 1e-8 and abs(float(np.sum(pk)) - 1.0) <= 1e-8), sub,
+                           detail={"worst_relative_deviation": worst, "observable": wname, "sum_pP^k": float(np.sum(pk)),
+                                   "max|pP^k - p|": float(np.max(np.abs(pk - p)))},
+                           sig=f"{kind}/stationary-chain/unbiased", theorem=THEOREMS["stationary"])
 
         # ---------------- sign anchor (audit C08-1): the three estimators against the library's OWN basis rotations.
         # p_P = Born distribution of the outcomes when every site is measured in the P basis of the default dictionary (property C04:
